@@ -135,6 +135,14 @@ def snapshot_indices(kw, names):
     return out
 
 
+class OperatorsTemporaryError(kopf.TemporaryError):
+    """Operators define their own error classes on top of kopf's: they are temporary/permanent errors just as well."""
+
+
+class OperatorsPermanentError(kopf.PermanentError):
+    pass
+
+
 class OperatorProgram:
     """Turns a spec into a registry bound to one operator incarnation of a Sim."""
 
@@ -222,6 +230,9 @@ class OperatorProgram:
                 rec.setdefault('fns', []).append(marker)
 
     async def _outcome(self, h, step, rec, result=None):
+        return self._outcome_sync(h, step, rec, result)
+
+    def _outcome_sync(self, h, step, rec, result=None):
         o = step['o']
         rec['outcome'] = o
         if o == 'ok':
@@ -230,15 +241,17 @@ class OperatorProgram:
             return copy.deepcopy(res)
         if o == 'temp':
             rec['delay'] = step.get('delay', 60)
-            raise kopf.TemporaryError(f'temp#{rec["attempt"]}', delay=step.get('delay', 60))
+            raise (OperatorsTemporaryError if step.get('sub') else kopf.TemporaryError)(f'temp#{rec["attempt"]}', delay=step.get('delay', 60))
         if o == 'perm':
-            raise kopf.PermanentError(f'perm#{rec["attempt"]}')
+            raise (OperatorsPermanentError if step.get('sub') else kopf.PermanentError)(f'perm#{rec["attempt"]}')
         if o == 'err':
             raise ScriptedError(f'err#{rec["attempt"]}')
         raise ValueError(o)
 
     # -- handler factories
     def _make_plain(self, h, kind):
+        if h.get('sync'):
+            return self._make_plain_sync(h, kind)
         prog = self
 
         async def fn(**kw):
@@ -255,6 +268,28 @@ class OperatorProgram:
             except asyncio.CancelledError:
                 rec['outcome'] = 'cancelled'
                 raise
+            finally:
+                rec['t1'] = prog._now()
+                rec['seq1'] = prog.sim.world.tick()
+        fn.__name__ = fn.__qualname__ = h['id'].replace('/', '_')
+        return fn
+
+    def _make_plain_sync(self, h, kind):
+        """The synchronous form of the same recorder: kopf runs it in an executor thread (see kopfsim/threads.py)."""
+        prog = self
+
+        def fn(**kw):
+            rec = prog._begin(h, kind, kw)
+            rec['sync'] = True
+            n, step, dur = prog._script_step(h, rec['uid'])
+            rec['attempt'] = n
+            try:
+                if dur:
+                    prog.sim.threads.sleep(dur)
+                prog._apply_patch_actions(h, kw, rec, n)
+                for sub in h.get('subs') or []:
+                    prog._register_sub(sub)
+                return prog._outcome_sync(h, step, rec)
             finally:
                 rec['t1'] = prog._now()
                 rec['seq1'] = prog.sim.world.tick()
